@@ -449,6 +449,14 @@ def run_c02(rep, tier, seed, nproc=8):
                     seen.add(sig)
                     rp = write_replay("C02", "solve_large_%s" % f["kind"], dict(engine="solve", property="C02", **f))
                     rep.violation(sig, f["detail"], rp)
+        for f in programs.wide_constant_programs(tier, use_solve=True):
+            rep.evaluations += 1
+            if f is not None:
+                sig = "solve:fallback:%s:wide-constant" % f["kind"]
+                if sig not in seen:
+                    seen.add(sig)
+                    rp = write_replay("C02", "solve_wideconst_%s" % f["kind"], dict(engine="solve", property="C02", **f))
+                    rep.violation(sig, f["detail"], rp)
         for f in programs.wide_operator_programs(tier, use_solve=True):
             rep.evaluations += 1
             if f is not None:
